@@ -18,7 +18,7 @@ RULES = {
     "C05.R8": "dispatch totality: __torch_dispatch__/__torch_function__ forward *args/**kwargs to the handler or the fallback",
     "C05.R9": "qfallback dequantizes every QTensor in args and kwargs",
     "C05.R10": "re-quantizing handlers compute on dequantized values and re-quantize with the operand qtype and documented scale",
-    "C05.R18": "mutation is local and atomic: (a) a handler that writes a scale in place (copy_) must not meet scale tensors shared between a result and its operand (neg / relu / where / views hand their operand's scale object to the result); (b) it checks that source and destination scales have the same layout before it changes anything; (c) every tensor class intercepts the mutating op copy_ (a class without it copies into a dequantized temporary: a silent no-op)",
+    "C05.R18": "mutation is local and atomic: (a) a handler that writes a scale in place (copy_) must not meet scale tensors shared between a result and its operand (neg / relu / where / views hand their operand's scale object to the result); (b) it checks that source and destination scales have the same layout before it changes anything; (c) every tensor class intercepts the mutating op copy_ (a class without it copies into a dequantized temporary: a silent no-op); (d) a plain source is broadcast before it is quantized with the destination's scale; (e) the dispatch tells mutating ops apart on every path that reaches the out-of-place fallback, and the write-back fallback re-issues the op with its arguments, copies into every destination it recorded and hands the destinations back; (f) aliasing ops return views of their operand, not of a dequantized temporary - per-axis handlers and ops without a handler (one obligation per view op of aten); (g) the scale a written-back destination ends up with cannot be null; (h) the write-back fallback refuses nothing",
     "C05.R21": "moves are operations: to(dtype) / to(device) / clone / detach of a quantized tensor denote the move of its dequantized values - the payload keeps its storage dtype, a dtype the scale cannot take (integer, 8-bit float) converts the dequantized values (the move rules C06.R2 / C06.R4 re-checked)",
     "C05.R20": "overloads: the dispatch hands every overload of an aten packet to one handler, so a handler of `view` must tell view(dtype) - a reinterpretation of the bytes, meaningless on the codes - from view(size) and fall back",
     "C05.R19": "a handler accepts the optional arguments of the aten ops it is registered for (div: rounding_mode; copy_: non_blocking): as a named parameter or through **kwargs",
